@@ -6,24 +6,29 @@ V = os.path.dirname(os.path.dirname(os.path.abspath(__file__)))
 RELATED = {"C01": "C01,C06,C04", "C02": "C02,C14,C05", "C03": "C03,C02", "C04": "C04,C10,C12", "C05": "C05,C10,C02", "C06": "C06,C02,C03",
            "C07": "C07,C01", "C08": "C08,C11", "C09": "C09,C12", "C10": "C10,C12", "C11": "C11,C08,C15", "C12": "C12", "C13": "C13,C02,C03",
            "C14": "C14,C02", "C15": "C15,C17", "C16": "C16", "C17": "C17,C15"}
-allp = "--all-props" in sys.argv
-for pid in [a for a in sys.argv[1:] if not a.startswith("--")]:
-    for diff in sorted(glob.glob(os.environ.get("MUT_DIR", "/tmp/mut") + "/%s_out/m*.diff" % pid)):
-        k = os.path.basename(diff)[:-5]
-        demo = diff[:-5] + "_demo.py"
-        props = RELATED[pid] if not allp else ""
-        cmd = "python3 %s/tools/try_patch.py %s --demo %s %s" % (V, diff, demo, ("--props " + props) if props else "")
-        r = subprocess.run(cmd, shell=True, capture_output=True, text=True)
-        try:
-            out = json.loads(r.stdout[r.stdout.index("{"):])
-            valid = out.get("demo_unpatched") == 0 and out.get("demo_patched") not in (0, None) and out["tests"].startswith("57 passed")
-            print("%s/%s valid=%s tests=%s demo=%s/%s caught_by=%s | %s" % (
-                pid, k, valid, out["tests"][:10], out.get("demo_unpatched"), out.get("demo_patched"), ",".join(out["caught_by"]) or "-",
-                " ".join("%s:%s" % (p, d.get("exit")) for p, d in out["props"].items())), flush=True)
-            for p, d in out["props"].items():
-                if d.get("exit") == 2:
-                    print("      %s inconclusive: %s" % (p, str(d.get("inconclusive"))[:300]), flush=True)
-                if d.get("exit") == 1 and p == pid:
-                    print("      %s: %s" % (p, d.get("first", "")[:200]), flush=True)
-        except Exception as e:
-            print("%s/%s ERROR %s %s" % (pid, k, e, (r.stdout + r.stderr)[-400:]), flush=True)
+def main():
+    allp = "--all-props" in sys.argv
+    for pid in [a for a in sys.argv[1:] if not a.startswith("--")]:
+        for diff in sorted(glob.glob(os.environ.get("MUT_DIR", "/tmp/mut") + "/%s_out/m*.diff" % pid)):
+            k = os.path.basename(diff)[:-5]
+            demo = diff[:-5] + "_demo.py"
+            props = RELATED[pid] if not allp else ""
+            cmd = "python3 %s/tools/try_patch.py %s --demo %s %s" % (V, diff, demo, ("--props " + props) if props else "")
+            r = subprocess.run(cmd, shell=True, capture_output=True, text=True)
+            try:
+                out = json.loads(r.stdout[r.stdout.index("{"):])
+                valid = out.get("demo_unpatched") == 0 and out.get("demo_patched") not in (0, None) and out["tests"].startswith("57 passed")
+                print("%s/%s valid=%s tests=%s demo=%s/%s caught_by=%s | %s" % (
+                    pid, k, valid, out["tests"][:10], out.get("demo_unpatched"), out.get("demo_patched"), ",".join(out["caught_by"]) or "-",
+                    " ".join("%s:%s" % (p, d.get("exit")) for p, d in out["props"].items())), flush=True)
+                for p, d in out["props"].items():
+                    if d.get("exit") == 2:
+                        print("      %s inconclusive: %s" % (p, str(d.get("inconclusive"))[:300]), flush=True)
+                    if d.get("exit") == 1 and p == pid:
+                        print("      %s: %s" % (p, d.get("first", "")[:200]), flush=True)
+            except Exception as e:
+                print("%s/%s ERROR %s %s" % (pid, k, e, (r.stdout + r.stderr)[-400:]), flush=True)
+
+
+if __name__ == "__main__":
+    main()
